@@ -228,7 +228,12 @@ def setReleaseWritten (o : Outbound) (id written len : Nat) : Outbound :=
 def flushRelease (o : Outbound) (id : Nat) : Outbound :=
   { o with release := modifyFirst (fun e => e.id == id) (fun e => { e with state := .sent }) o.release }
 
-/-- `arm_replay`. -/
+/-- First statement of `arm_replay`: a queued keep-alive probe is dropped, it belongs to the
+connection it was queued on. -/
+def dropPingreq (o : Outbound) : Outbound :=
+  { o with control := o.control.filter fun e => e.action.typ ≠ MT_PingReq }
+
+/-- The rest of `arm_replay`. -/
 def armReplay (o : Outbound) : Outbound :=
   if !o.hasPendingState then o else
   let o := o.markRetainedDup
@@ -236,6 +241,9 @@ def armReplay (o : Outbound) : Outbound :=
     control := o.control.map fun e => { e with state := .write 0 },
     retained := o.retained.map fun e => { e with state := .write 0 },
     release := o.release.map fun e => { e with state := .write 0 } }
+
+/-- `arm_replay`. -/
+def rearm (o : Outbound) : Outbound := o.dropPingreq.armReplay
 
 /-- `encode_packet` / `encode_publish` common part: compact, encode into `buf[used..]`, and
 return `(absolute offset, len)`. `enc cap` is the encoder applied to a buffer of `cap` bytes. -/
